@@ -729,7 +729,7 @@ fn bracket(seen: &BTreeMap<LadderItem, String>, c: usize) -> (Option<usize>, Opt
 pub fn run(ctx: &Ctx) -> Report {
     let mut rep = Report::new(Level::Exploration);
     let thorough = ctx.thorough();
-    let budget = ctx.budget(45.0, 20.0 * 60.0);
+    let budget = ctx.budget(38.0, 20.0 * 60.0);
     let dir = ctx.dir("w");
     let acc = Mutex::new(Acc::default());
     let mut exhaustive = true;
